@@ -3,6 +3,7 @@ import itertools
 from functools import lru_cache
 
 import numpy as np
+from mc.ref.linalg import allclose as _close
 import sympy
 
 from mc.engine import Section, jdump
@@ -135,14 +136,14 @@ def op_case(case):
             for asg in assignments(want_free):
                 X, Y = eval_matrix(bound.gate.matrix, asg), eval_matrix(sub, asg)
                 k += 1
-                if X.shape != Y.shape or not np.allclose(X, Y, atol=ATOL):
+                if X.shape != Y.shape or not _close(X, Y, atol=ATOL):
                     return {"ok": False, "msg": where + ": bind-then-evaluate differs from evaluate-then-substitute (remaining symbols at %s)" % {str(a): b for a, b in asg.items()},
                             "expected": str(np.round(Y, 4).tolist())[:300], "observed": str(np.round(X, 4).tolist())[:300], "sig": "bind:matrix", "ops": k}
         elif not want_free:
             v = np.ones(len(op.params), dtype=complex) / np.sqrt(len(op.params))
             got = np.asarray(bound.apply(v), dtype=complex)
             exp = np.exp(1j * np.array([float(sympy.sympify(p)) for p in exp_params])) * v
-            if not np.allclose(got, exp, atol=ATOL):
+            if not _close(got, exp, atol=ATOL):
                 return {"ok": False, "msg": where + ": bound MultiPhaseOperation applies other phases than substitution gives", "sig": "bind:mp-apply", "ops": k}
         # every split of the map
         items = list(m.items())
@@ -233,11 +234,11 @@ def circuit_case(case):
                 M1 = eval_matrix(o1.gate.matrix, asg)
                 U = L.embed(M0, tuple(o0.qubit_indices), n) @ U
                 V = L.embed(M1, tuple(o1.qubit_indices), n) @ V
-            if not np.allclose(U, V, atol=ATOL):
+            if not _close(U, V, atol=ATOL):
                 return {"ok": False, "msg": "circuit: bind-then-evaluate differs from evaluate-then-substitute for map %s" % md, "sig": "circuit:matrix", "ops": k}
             if not want:
                 W = num(b.to_unitary())
-                if not np.allclose(W, V, atol=ATOL):
+                if not _close(W, V, atol=ATOL):
                     return {"ok": False, "msg": "fully bound circuit: to_unitary differs from the product of bound gate matrices", "sig": "circuit:to_unitary", "ops": k}
     return {"ok": True, "nt": bool(fs), "ops": k, "out": "len%d" % len(ops)}
 
@@ -339,7 +340,7 @@ def assume_case(case):
             return {"ok": False, "msg": "%s symbols: bound circuit reports free symbols %s, expected %s" % (kind, bc.free_symbols, want), "sig": "assume:circuit-free", "ops": k}
         if not want:
             for o0, o1 in zip(ops[:-1], bc.operations[:-1]):
-                if not np.allclose(num(o1.gate.matrix), num(o0.gate.matrix.subs(m, simultaneous=True)), atol=ATOL):
+                if not _close(num(o1.gate.matrix), num(o0.gate.matrix.subs(m, simultaneous=True)), atol=ATOL):
                     return {"ok": False, "msg": "%s symbols: fully bound %s differs from the substituted matrix" % (kind, o0), "sig": "assume:matrix", "ops": k}
     # two DISTINCT symbols that print alike (two Dummy symbols of one name; a plain symbol next to one with assumptions) inside one operation / one parameter
     twins = {"plain": (sympy.Symbol("phi"), sympy.Symbol("phi", real=True)), "real": (sympy.Symbol("phi", real=True), sympy.Symbol("phi", positive=True)), "positive": (sympy.Symbol("x", positive=True), sympy.Symbol("x")),
@@ -433,7 +434,7 @@ def cross_map_case(case):
             for asg in assignments(want_free):
                 X, Y = eval_matrix(bound.gate.matrix, asg), eval_matrix(sub, asg)
                 k += 1
-                if X.shape != Y.shape or not np.allclose(X, Y, atol=ATOL):
+                if X.shape != Y.shape or not _close(X, Y, atol=ATOL):
                     return {"ok": False, "msg": where + ": bind-then-evaluate differs from evaluate-then-substitute", "sig": "xmap:matrix", "ops": k,
                             "expected": str(np.round(Y, 4).tolist())[:300], "observed": str(np.round(X, 4).tolist())[:300]}
         if name in XSELF:
